@@ -49,6 +49,8 @@ package arith
 //@   requires n != nil && n.Modulus != nil && x != nil && e != nil
 //@   ensures result != nil && fresh(result)
 //@   summary natval(result) == modexp(natval(x), natval(e), natval(n.Modulus))
+// (a power of a unit is a unit, hence not zero)
+//@   summary coprime(natval(x), natval(n.Modulus)) ==> natval(result) >= 1
 
 //@ func (*Modulus).ExpI
 //@   nopanic[C05]
